@@ -13,7 +13,7 @@ def clone(after, tr, b, elem, L=3, tier="quick", slack=1, ln=None):
     lt = ln if isinstance(ln, str) else "f%d" % ln
     name = "c08_clone_%s__%s_%s_%s__L%d_l%s" % (after.lower(), tr, b, elem, L, lt)
     call = "c08::clone_h::<%s, %s, %s>(%s, c08::After::%s)" % (TR[tr], bk(b, elem, L + slack), elem, P(L + slack, ln, "s%d" % L), after)
-    props = ["C08"] + (["C11"] if b in ("stack", "stackn") else []) + (["C05"] if b == "reloc" else [])
+    props = ["C08"] + (["C11"] if b in ("stack", "stackn") else []) + (["C05"] if b in ("reloc", "reloc1") else [])
     H(name, call, props, tier=tier, unwind=unwind_for(elem, L + 2), dims=dict(L=L, cap=L + slack, len=ln, after=after, elem=elem, backend=b, traits=tr, shape_symbolic=isinstance(ln, str)), role="c08_clone")
 
 
@@ -49,6 +49,9 @@ def define():
     clone("MutateClone", "call", "heap", "B3D", L=2)
     clone("ClearOrig", "clone", "reloc", "B3D", L=2)
     clone("Nothing", "clone", "heap", "Z0D")
+    # a backend that starts with room for one element: the clone must still get room for all of them
+    clone("Nothing", "clone", "reloc1", "B3D", L=2)
+    clone("PushClone", "clone", "reloc1", "B3D", L=3, tier="rot2")
     clone("Nothing", "clone", "heap", "W8", L=2)
     clone("Nothing", "clone", "stackn", "B3D", L=2, slack=0)
     clone_empty(True, "clone", "heap", "heap", "B3D")
@@ -65,6 +68,9 @@ def define():
     lazy("ElemRef", "Insert", 3, 3, "call", "heap", "heap", "B3D")
     lazy("Handle", "Push", 1, 0, "clone", "heap", "heap", "W8D")
     lazy("ElemRef", "Downcast", 1, 1, "clone", "heap", "heap", "D24D", L=1)
+    # zero-sized element with drop glue and an observable Clone
+    lazy("ElemRef", "Push", 1, 1, "clone", "heap", "heap", "Z0D")
+    lazy("Handle", "Insert", 2, 2, "clone", "heap", "stack", "Z0D", tier="rot2")
     # rotation pool (quick, by seed): other cloneable constraint sets / backends on the cheap 3-byte element
     for tr in ("csend", "csync", "call"):
         for b in ("heap", "stack", "reloc", "stackn"):
